@@ -1,5 +1,6 @@
 /-
-  spmodel — dispatch for armor, classification and the stream state machines.
+  spmodel — dispatch for the decoded-packets route (hook `VerifListPackets`),
+  armor, classification and the stream state machines.
 -/
 import Driver.Util
 
@@ -8,8 +9,135 @@ open Saltpack
 namespace Driver2
 open Driver
 
+/-! ### decoded-packets route
+
+  `hdr`:  `U` (unreadable) | `X:<headerbytes>` (undecodable) | `H:<headerbytes>`
+  `hf`:   enc/signcrypt `<fmt>;<maj>;<min>;<typ>;<eph>;<ssb>;<kid|~>/<box>|...`
+          sig           `<fmt>;<maj>;<min>;<typ>;<pub>;<nonce>`       (`-` if no header)
+  `items`: comma list; `N` = does not decode as a block;
+          enc `<0|1>/<a.a.a>/<ct>`, signcrypt `<0|1>/<ct>`, sig `<0|1>/<sig>/<chunk>`
+  `tail`: `E` clean end | `R` error -/
+
+def parseRecv (s : String) : Option RecvKeys :=
+  match s.splitOn "/" with
+  | [k, b] =>
+    match (if k = "~" then some none else (ofHex k).map some), ofHex b with
+    | some kid, some bx => some ⟨kid, bx⟩
+    | _, _ => none
+  | _ => none
+
+def parseEncHF (s : String) : Option EncHeader :=
+  match s.splitOn ";" with
+  | [fn, ma, mi, ty, eph, ssb, rc] =>
+    match ofHex fn, ma.toInt?, mi.toInt?, ty.toInt?, ofHex eph, ofHex ssb,
+        (if rc = "-" then some [] else (rc.splitOn "|").mapM parseRecv) with
+    | some fn, some ma, some mi, some ty, some eph, some ssb, some rs => some ⟨fn, ⟨ma, mi⟩, ty, eph, ssb, rs⟩
+    | _, _, _, _, _, _, _ => none
+  | _ => none
+
+def parseSigHF (s : String) : Option SigHeader :=
+  match s.splitOn ";" with
+  | [fn, ma, mi, ty, pk, n] =>
+    match ofHex fn, ma.toInt?, mi.toInt?, ty.toInt?, ofHex pk, ofHex n with
+    | some fn, some ma, some mi, some ty, some pk, some n => some ⟨fn, ⟨ma, mi⟩, ty, pk, n⟩
+    | _, _, _, _, _, _ => none
+  | _ => none
+
+def parseHdr {η : Type} (pf : String → Option η) (hdr hf : String) : Option (HeaderRead η) :=
+  if hdr = "U" then some .unreadable
+  else match hdr.splitOn ":" with
+    | ["X", hb] => (ofHex hb).map .undecodable
+    | ["H", hb] =>
+      match ofHex hb, pf hf with
+      | some hb, some h => some (.ok hb h)
+      | _, _ => none
+    | _ => none
+
+def parseBool01 (s : String) : Option Bool := if s = "1" then some true else if s = "0" then some false else none
+
+def parseItems {β : Type} (pi : List String → Option β) (s : String) : Option (List (Option β)) :=
+  (splitList s).mapM (fun t => if t = "N" then some none else (pi (t.splitOn "/")).map some)
+
+def parseEncItem : List String → Option EncBlock
+  | [f, a, c] =>
+    match parseBool01 f, (if a = "-" then some [] else (a.splitOn ".").mapM ofHex), ofHex c with
+    | some f, some a, some c => some ⟨a, c, f⟩
+    | _, _, _ => none
+  | _ => none
+
+def parseScItem : List String → Option SigncryptBlock
+  | [f, c] =>
+    match parseBool01 f, ofHex c with
+    | some f, some c => some ⟨c, f⟩
+    | _, _ => none
+  | _ => none
+
+def parseSigItem : List String → Option SigBlock
+  | [f, sg, c] =>
+    match parseBool01 f, ofHex sg, ofHex c with
+    | some f, some sg, some c => some ⟨sg, c, f⟩
+    | _, _, _ => none
+  | _ => none
+
+def parseTail (s : String) : Option Tail :=
+  if s = "E" then some .eof else if s = "R" then some (.err .decodeError) else none
+
 def handle (toks : List String) : Option String :=
   match toks with
+  | ["enc.openp", valid, secrets, ls, lp, ie, lsig, hdr, hf, items, tail] =>
+    match mkValidator valid, hexList secrets, parseHdr parseEncHF hdr hf, parseItems parseEncItem items, parseTail tail with
+    | some valid, some secrets, some hr, some its, some tl =>
+      match mkKeyring secrets ls lp ie lsig with
+      | none => none
+      | some kr =>
+        let r := Decrypt.openStream RealPrims valid kr hr ⟨its, tl⟩
+        let mki := match r.err, r.mki with
+          | none, some m => showMKI m
+          | _, _ => "-"
+        some s!"res {showOptErr r.err} rel={toHex r.released} calls={showCalls r.calls} {mki}"
+    | _, _, _, _, _ => none
+  | ["sc.openp", secrets, ls, lp, ie, lsig, resolver, hdr, hf, items, tail] =>
+    match hexList secrets, mkResolver resolver, parseHdr parseEncHF hdr hf, parseItems parseScItem items, parseTail tail with
+    | some secrets, some res, some hr, some its, some tl =>
+      match mkKeyring secrets ls lp ie lsig with
+      | none => none
+      | some kr =>
+        let r := Signcrypt.openStream RealPrims kr res hr ⟨its, tl⟩
+        let snd := match r.err with
+          | none => (match r.sender with | some s => toHex s | none => "anon")
+          | some _ => "-"
+        some s!"res {showOptErr r.err} rel={toHex r.released} calls={showCalls r.calls} sender={snd}"
+    | _, _, _, _, _ => none
+  | ["sig.verifyp", valid, lsig, hdr, hf, items, tail] =>
+    match mkValidator valid, parseHdr parseSigHF hdr hf, parseItems parseSigItem items, parseTail tail with
+    | some valid, some hr, some its, some tl =>
+      match mkKeyring [] "none" "nil" "nil" lsig with
+      | none => none
+      | some kr =>
+        let r := Sign.verifyStream RealPrims valid kr hr ⟨its, tl⟩
+        let snd := match r.err, r.signer with
+          | none, some s => toHex s
+          | _, _ => "-"
+        some s!"res {showOptErr r.err} rel={toHex r.released} signer={snd}"
+    | _, _, _, _ => none
+  | ["sig.verifydetachedp", valid, lsig, hdr, hf, sg, msg] =>
+    match mkValidator valid, parseHdr parseSigHF hdr hf, ofHex msg with
+    | some valid, some hr, some msg =>
+      match mkKeyring [] "none" "nil" "nil" lsig with
+      | none => none
+      | some kr =>
+        let sr : Option Sign.SigRead :=
+          if sg = "E" then some (.none .unexpectedEOF) else if sg = "R" then some (.none .decodeError)
+          else match sg.splitOn ":" with
+            | ["S", h] => (ofHex h).map .sig
+            | _ => none
+        match sr with
+        | none => none
+        | some sr =>
+          match Sign.verifyDetached RealPrims valid kr hr sr msg with
+          | .ok k => some s!"res ok signer={toHex k}"
+          | .error e => some s!"res {showErr e} signer=-"
+    | _, _, _ => none
   | _ => none
 
 end Driver2
